@@ -25,15 +25,20 @@ func (c wtWriterCfg) String() string {
 }
 
 type wtPath struct {
-	api   string // WriteMessage | Write | WriteString | ReadFrom | Prepared
-	chunk int    // 0 = whole; >0 = input fed in chunks of this many bytes
+	api     string // WriteMessage | Write | WriteString | ReadFrom | Prepared
+	chunk   int    // 0 = whole; >0 = input fed in chunks of this many bytes
+	tailEOF bool   // ReadFrom: the reader returns its last bytes together with io.EOF
 }
 
 func (p wtPath) String() string {
-	if p.chunk == 0 {
-		return p.api
+	t := ""
+	if p.tailEOF {
+		t = "/tail+EOF"
 	}
-	return fmt.Sprintf("%s/chunk=%d", p.api, p.chunk)
+	if p.chunk == 0 {
+		return p.api + t
+	}
+	return fmt.Sprintf("%s/chunk=%d%s", p.api, p.chunk, t)
 }
 
 func wtPayload(n int, binary bool) []byte {
@@ -49,8 +54,9 @@ func wtPayload(n int, binary bool) []byte {
 }
 
 type chunkReader struct {
-	b []byte
-	n int
+	b       []byte
+	n       int
+	tailEOF bool
 }
 
 func (r *chunkReader) Read(p []byte) (int, error) {
@@ -66,6 +72,9 @@ func (r *chunkReader) Read(p []byte) (int, error) {
 	}
 	copy(p, r.b[:n])
 	r.b = r.b[n:]
+	if r.tailEOF && len(r.b) == 0 {
+		return n, io.EOF
+	}
 	return n, nil
 }
 
@@ -108,7 +117,7 @@ func wtWrite(c *wt.Conn, p wtPath, m wtMsg) error {
 			data = data[n:]
 		}
 	case "ReadFrom":
-		if _, err = w.(io.ReaderFrom).ReadFrom(&chunkReader{b: m.Data, n: p.chunk}); err != nil {
+		if _, err = w.(io.ReaderFrom).ReadFrom(&chunkReader{b: m.Data, n: p.chunk, tailEOF: p.tailEOF}); err != nil {
 			return err
 		}
 	}
@@ -275,16 +284,19 @@ func wtPaths(wb, n int) []wtPath {
 	if wb == 0 {
 		wb = 4096
 	}
-	ps := []wtPath{{"WriteMessage", 0}, {"Write", 0}, {"WriteString", 0}, {"ReadFrom", 0}, {"Prepared", 0}}
+	ps := []wtPath{{api: "WriteMessage"}, {api: "Write"}, {api: "WriteString"}, {api: "ReadFrom"}, {api: "Prepared"}}
+	if n > 0 {
+		ps = append(ps, wtPath{api: "ReadFrom", tailEOF: true})
+	}
 	if n > 1 {
 		if n <= 300 {
-			ps = append(ps, wtPath{"Write", 1}, wtPath{"ReadFrom", 1})
+			ps = append(ps, wtPath{api: "Write", chunk: 1}, wtPath{api: "ReadFrom", chunk: 1})
 		}
 		if n > 7 && n <= 20000 {
-			ps = append(ps, wtPath{"Write", 7}, wtPath{"WriteString", 7}, wtPath{"ReadFrom", 7})
+			ps = append(ps, wtPath{api: "Write", chunk: 7}, wtPath{api: "WriteString", chunk: 7}, wtPath{api: "ReadFrom", chunk: 7}, wtPath{api: "ReadFrom", chunk: 7, tailEOF: true})
 		}
 		if n > wb {
-			ps = append(ps, wtPath{"Write", wb}, wtPath{"Write", wb + 1}, wtPath{"ReadFrom", wb + 1}, wtPath{"WriteString", wb + 9})
+			ps = append(ps, wtPath{api: "Write", chunk: wb}, wtPath{api: "Write", chunk: wb + 1}, wtPath{api: "ReadFrom", chunk: wb + 1}, wtPath{api: "WriteString", chunk: wb + 9})
 		}
 	}
 	return ps
@@ -408,7 +420,7 @@ func init() {
 					wb = 4096
 				}
 				lens := []int{0, 1, 125, 126, wb, wb + 9, wb + 10, 2*(wb+9) + 1}
-				paths := []wtPath{{"WriteMessage", 0}, {"Write", 0}, {"Write", 7}, {"ReadFrom", 0}, {"WriteString", 0}}
+				paths := []wtPath{{api: "WriteMessage"}, {api: "Write"}, {api: "Write", chunk: 7}, {api: "ReadFrom"}, {api: "WriteString"}}
 				maxSeq := Pick(c, 2, 3)
 				var rec func(seq []wtMsg, ps []wtPath)
 				rec = func(seq []wtMsg, ps []wtPath) {
